@@ -183,6 +183,25 @@ _RE_SNOTE = re.compile(r"^snote\(([^,]+),")
 _RE_NOTE = re.compile(r"note\(([^,]+),")
 
 
+_RE_PROP = re.compile(r"^scoreprop\((keySignature|timeSignature),(.+),(-?\d+):(-?\d+),([^,]+),([^,]+)\)\.$")
+_RE_SNOTE_POS = re.compile(r"^snote\(([^,]+),\[[^\]]*\],[^,]+,(-?\d+):(-?\d+),")
+
+
+def scoreprop_lines(text):
+    """independent reading of the signature lines of a 1.0.0 file: [(attribute, value, measure, beat, offset, time)]
+    and the measure number used by the snote line of every score id"""
+    props = []
+    snote_measure = {}
+    for ln in text.splitlines():
+        m = _RE_PROP.match(ln.strip())
+        if m:
+            props.append((m.group(1), m.group(2), int(m.group(3)), int(m.group(4)), m.group(5), float(m.group(6))))
+        m = _RE_SNOTE_POS.match(ln.strip())
+        if m:
+            snote_measure[m.group(1)] = int(m.group(2))
+    return props, snote_measure
+
+
 def classify_lines(text):
     """independent classification of the lines of a match file (any version): returns a list of
     (kind, score_id, perf_id) for note lines and counts of pedal lines"""
